@@ -818,7 +818,7 @@ def r65(ctx: Ctx) -> RuleReport:
 @rule('R66', 'a list that the same function pops is never indexed at [-1] / popped unless it is known to be non-empty there')
 def r66(ctx: Ctx) -> RuleReport:
     from ..resolve import facts_ex, view
-    rep = RuleReport('R66', r66.title, floor=1)
+    rep = RuleReport('R66', r66.title, floor=0)
     for fi in ctx.repo.all_functions():
         popped = {n.func.value.id for n in walk_local(fi.node) if isinstance(n, ast.Call) and isinstance(n.func, ast.Attribute)
                   and n.func.attr == 'pop' and not n.args and isinstance(n.func.value, ast.Name)}
@@ -929,7 +929,7 @@ def r32(ctx: Ctx) -> RuleReport:
             if isinstance(a0, ast.Tuple) and len(a0.elts) == 3:
                 t = ctx.types.type_of(fi, c.args[0].elts[2]) if isinstance(c.args[0], ast.Tuple) else frozenset()
                 only_var = bool(t) and all(a[0] in ('Var',) for a in t)
-                src = norm(a0.elts[2])
+                src = norm(expand(ctx, fi, a0.elts[2], c, pure_only=True))
                 fx = facts_ex(ctx, fi, c)
                 guarded = any(pol and f.startswith(f'{src} in ') for f, pol in fx)
                 nested = src.endswith('[0]') and (f'is_atomic({src[:-3]})', False) in fx
